@@ -570,6 +570,127 @@ func unverdictedReturn(g, vf *ssa.Function) *ssa.Return {
 	return returnsIn(reachCut(g.Blocks[0], stop, cut))
 }
 
+// ---- C07.TOKEN, second clause ----
+
+// Token() returning the node's own token only positions the node correctly if the parser kept the right token there. A
+// function of the parser is entered with the look-ahead at the first token of what it parses (C04), so the token stored
+// into a node must be the look-ahead as it was when nothing had been consumed yet in that function: the result of the
+// first next(), or of a peek() / a read of the look-ahead that no consuming call can precede.
+func c07TokenOrigins(c *Ctx, ownTok map[string]bool) {
+	p := c.P
+	next := p.Method("ExprParser", "next")
+	if next == nil || len(ownTok) == 0 {
+		return // reported by the first clause / C07.ERRTOK
+	}
+	consumes := func(call ssa.CallInstruction) bool {
+		g := staticCallee(call.Common())
+		if g == nil || g.Signature.Recv() == nil || pointeeName(g.Signature.Recv().Type()) != "ExprParser" {
+			return false
+		}
+		return g == next || p.reachable(g)[next]
+	}
+	// lookAhead: v is the look-ahead token: next(), a getter of ExprParser.cur, or a read of the field
+	var lookAhead func(v ssa.Value) bool
+	lookAhead = func(v ssa.Value) bool {
+		if f, _ := fieldLoad(v); f == "ExprParser.cur" {
+			return true
+		}
+		call, ok := v.(*ssa.Call)
+		if !ok {
+			return false
+		}
+		g := staticCallee(&call.Call)
+		if g == nil || g.Signature.Recv() == nil || pointeeName(g.Signature.Recv().Type()) != "ExprParser" || g.Blocks == nil {
+			return false
+		}
+		if g == next {
+			return true
+		}
+		if len(g.Blocks) != 1 {
+			return false
+		}
+		r, ok := g.Blocks[0].Instrs[len(g.Blocks[0].Instrs)-1].(*ssa.Return)
+		if !ok || len(r.Results) != 1 {
+			return false
+		}
+		f, _ := fieldLoad(r.Results[0])
+		return f == "ExprParser.cur" && !p.reachable(g)[next]
+	}
+	// firstToken: v, used in fn, is the look-ahead as it was before fn (or, for a parameter, every caller) consumed anything
+	var firstToken func(fn *ssa.Function, v ssa.Value, depth int) (bad, undecided string)
+	firstToken = func(fn *ssa.Function, v ssa.Value, depth int) (string, string) {
+		if par, ok := v.(*ssa.Parameter); ok && depth < 3 {
+			idx := -1
+			for i, q := range fn.Params {
+				if q == par {
+					idx = i
+				}
+			}
+			n := 0
+			for _, e := range p.callersOf(fn) {
+				if e.Site == nil || e.Site.Common().IsInvoke() || idx < 0 || idx >= len(e.Site.Common().Args) {
+					return "", "the token is a parameter and a caller cannot be followed"
+				}
+				n++
+				if bad, und := firstToken(e.Caller.Func, e.Site.Common().Args[idx], depth+1); bad != "" || und != "" {
+					return bad, und
+				}
+			}
+			if n == 0 {
+				return "", "the token is a parameter of a function without callers"
+			}
+			return "", ""
+		}
+		def, isInstr := v.(ssa.Instruction)
+		if !isInstr || !lookAhead(v) {
+			return "", "the token stored into the node is not read from the parser's look-ahead"
+		}
+		var before ssa.CallInstruction
+		eachInstr(fn, func(_ *ssa.BasicBlock, _ int, other ssa.Instruction) {
+			call, ok := other.(ssa.CallInstruction)
+			if !ok || other == def || before != nil || !consumes(call) {
+				return
+			}
+			if instrReachableAfter(other, def) {
+				before = call
+			}
+		})
+		if before != nil {
+			return "the token is taken from the look-ahead in " + FuncName(fn) + " after " + describeCall(before) + " may have consumed tokens: the node is positioned at a later token than its first, and so is every diagnostic about it", ""
+		}
+		return "", ""
+	}
+	occ := map[string]int{}
+	for _, fn := range p.Funcs {
+		if !inModule(fn) {
+			continue
+		}
+		eachInstr(fn, func(_ *ssa.BasicBlock, _ int, in ssa.Instruction) {
+			st, ok := in.(*ssa.Store)
+			if !ok {
+				return
+			}
+			fa, ok := st.Addr.(*ssa.FieldAddr)
+			if !ok || !ownTok[fieldAddrName(fa)] {
+				return
+			}
+			k := FuncName(fn) + "|token kept in " + strings.TrimSuffix(fieldAddrName(fa), ".tok")
+			occ[k]++
+			construct := fmt.Sprintf("%s#%d", k, occ[k])
+			bad, und := firstToken(fn, st.Val, 0)
+			if und != "" {
+				c.undecided(construct, st.Pos(), und)
+				return
+			}
+			if bad != "" {
+				c.bad(construct, st.Pos(), bad)
+				return
+			}
+			c.ok(construct, st.Pos(), "the look-ahead as it was when the function had not consumed anything")
+		})
+	}
+}
+
 // ---- C08.RAWKEY ----
 
 // A case-insensitive name is kept twice: as the lower-case key under which it is looked up, and as the spelling the user
